@@ -19,6 +19,8 @@
 (*   [k |-> "struct", f]          f: sequence of fields                    *)
 (*        [name (code points), t, omitzero, omitempty, str, casing, fmt]   *)
 (*        fmt: the `format` option ("" when absent)                        *)
+(*        A struct type also has fb: <<>> or <<E>> - an embedded fallback  *)
+(*        field of type map[string]E that takes the unknown members        *)
 (*   [k |-> "dur"] time.Duration and [k |-> "time"] time.Time, modelled    *)
 (*        with the decimal formats sec/milli/micro/nano and unix/          *)
 (*        unixmilli/unixmicro/unixnano (a number with a fraction)          *)
@@ -34,7 +36,7 @@
 (*   bytes [nil, b (sequence of 0..255)]   barr [b]                        *)
 (*   dur [neg, mag] nanoseconds   time [neg, mag] nanoseconds since the    *)
 (*        Unix epoch (the instant; the zero time.Time is year 1)           *)
-(*   struct [f]  sequence of field values                                  *)
+(*   struct [f, fb]  sequence of field values; the fallback map [nil, m]    *)
 (*                                                                         *)
 (* JSON values J (numbers keep their spelling: it decides conversion)      *)
 (*   [t |-> "null"] [t |-> "bool", b] [t |-> "str", s] [t |-> "num", lit]  *)
@@ -85,7 +87,7 @@ Zero(t) ==
       [] t.k = "array" -> [e |-> [i \in 1..t.n |-> Zero(t.e)]]
       [] t.k = "map" -> [nil |-> TRUE, m |-> <<>>]
       [] t.k \in {"ptr", "any"} -> [nil |-> TRUE]
-      [] t.k = "struct" -> [f |-> [i \in 1..Len(t.f) |-> Zero(t.f[i].t)]]
+      [] t.k = "struct" -> [f |-> [i \in 1..Len(t.f) |-> Zero(t.f[i].t)], fb |-> [nil |-> TRUE, m |-> <<>>]]
 
 \* reflect.Value.IsZero: -0.0 is zero (it equals 0), an empty non-nil slice or map is not zero
 RECURSIVE IsZero(_, _)
@@ -98,7 +100,7 @@ IsZero(t, v) ==
       [] t.k \in {"slice", "map", "ptr", "any", "bytes"} -> v.nil
       [] t.k = "barr" -> \A i \in 1..t.n : v.b[i] = 0
       [] t.k = "array" -> \A i \in 1..t.n : IsZero(t.e, v.e[i])
-      [] t.k = "struct" -> \A i \in 1..Len(t.f) : IsZero(t.f[i].t, v.f[i])
+      [] t.k = "struct" -> v.fb.nil /\ \A i \in 1..Len(t.f) : IsZero(t.f[i].t, v.f[i])
 
 \* omitzero asks the field type's IsZero method when there is one: time.Time has, and a
 \* *time.Time inherits it (a pointer to the zero time is "zero")
@@ -241,17 +243,33 @@ Marshal(t, v, o, st) ==
          \* members in the order of their names (the order of Deterministic; any order otherwise)
          LET ms == [i \in 1..Len(v.m) |-> <<KeyName(t.key, v.m[i][1]), Marshal(t.e, v.m[i][2], o, NoSt)>>] IN
          IF \E i \in 1..Len(ms) : IsErr(ms[i][2]) THEN ERR ELSE [t |-> "obj", m |-> ms]
-    ELSE \* struct
-         FoldLeft(LAMBDA acc, i :
-                    IF IsErr(acc) THEN acc
+    ELSE \* struct: the fields in order, then the members of the embedded fallback (in the order
+         \* of their names); a fallback member must not repeat a member already written - it
+         \* names a field exactly, or where requested ignoring case - nor another fallback member
+         LET regular == FoldLeft(LAMBDA acc, i :
+                    IF IsErr(acc.j) THEN acc
                     ELSE LET F == t.f[i]  fv == v.f[i] IN
                          IF (F.omitzero \/ o.oz) /\ FieldIsZero(F.t, fv) THEN acc
                          ELSE IF F.omitempty /\ KnownEmpty(F.t, fv) THEN acc
                          ELSE LET j == Marshal(F.t, fv, o, [tag |-> F.str, key |-> FALSE, fmt |-> F.fmt]) IN
-                              IF IsErr(j) THEN ERR
+                              IF IsErr(j) THEN [acc EXCEPT !.j = ERR]
                               ELSE IF F.omitempty /\ EmptyJ(j) THEN acc
-                              ELSE [acc EXCEPT !.m = Append(@, <<F.name, j>>)],
-                  [t |-> "obj", m |-> <<>>], [i \in 1..Len(t.f) |-> i])
+                              ELSE [j |-> [acc.j EXCEPT !.m = Append(@, <<F.name, j>>)], seen |-> acc.seen \cup {i}],
+                  [j |-> [t |-> "obj", m |-> <<>>], seen |-> {}], [i \in 1..Len(t.f) |-> i])
+             idx == 1..Len(t.f)
+             fieldOf(name) ==
+                 LET exact == {i \in idx : t.f[i].name = name}
+                     folded == {i \in idx : FF!Fold(t.f[i].name) = FF!Fold(name) /\ (t.f[i].casing = 1 \/ (o.ci /\ t.f[i].casing # 2))} IN
+                 IF exact # {} THEN exact ELSE IF folded = {} THEN {} ELSE {CHOOSE i \in folded : \A k \in folded : i <= k} IN
+         IF IsErr(regular.j) \/ t.fb = <<>> THEN regular.j
+         ELSE FoldLeft(LAMBDA acc, kv :
+                    IF IsErr(acc.j) THEN acc
+                    ELSE LET fs == fieldOf(kv[1].s)
+                             j == Marshal(t.fb[1], kv[2], o, NoSt) IN
+                         IF ~o.ad /\ fs \cap acc.seen # {} THEN [acc EXCEPT !.j = ERR]
+                         ELSE IF IsErr(j) THEN [acc EXCEPT !.j = ERR]
+                         ELSE [j |-> [acc.j EXCEPT !.m = Append(@, <<kv[1].s, j>>)], seen |-> acc.seen \cup fs],
+                  regular, v.fb.m).j
 
 \* ------------------------------------------------------------------ compact rendering
 Bytes(str) == CASE str = "null" -> <<110, 117, 108, 108>>
@@ -397,15 +415,21 @@ Unmarshal(t, old, j, o, st) ==
                                                          /\ (t.f[i].casing = 1 \/ (o.ci /\ t.f[i].casing # 2))} IN
                               IF exact = {} /\ Cardinality(folded) > 1 THEN [acc EXCEPT !.ok = FALSE]
                               ELSE IF exact = {} /\ folded = {} THEN
-                                   (IF o.ru \/ (~o.ad /\ mem[1] \in acc.unk) THEN [acc EXCEPT !.ok = FALSE]
-                                    ELSE [acc EXCEPT !.unk = @ \cup {mem[1]}])
+                                   \* with an embedded fallback unknown members are kept there (decoded into the
+                                   \* entry of that name, if any) and RejectUnknownMembers does not apply
+                                   (IF (o.ru /\ t.fb = <<>>) \/ (~o.ad /\ mem[1] \in acc.unk) THEN [acc EXCEPT !.ok = FALSE]
+                                    ELSE IF t.fb = <<>> THEN [acc EXCEPT !.unk = @ \cup {mem[1]}]
+                                    ELSE LET k == [s |-> mem[1]]
+                                             vr == Unmarshal(t.fb[1], IF MapHas(acc.fb.m, k) THEN MapGet(acc.fb.m, k) ELSE Zero(t.fb[1]), mem[2], o, NoSt) IN
+                                         IF ~vr.ok THEN [acc EXCEPT !.ok = FALSE]
+                                         ELSE [acc EXCEPT !.unk = @ \cup {mem[1]}, !.fb = [nil |-> FALSE, m |-> MapPut(StrT, acc.fb.m, k, vr.v)]])
                               ELSE LET i == CHOOSE x \in (IF exact # {} THEN exact ELSE folded) : TRUE IN
                                    IF ~o.ad /\ i \in acc.seen THEN [acc EXCEPT !.ok = FALSE]
                                    ELSE LET vr == Unmarshal(t.f[i].t, acc.f[i], mem[2], o, [tag |-> t.f[i].str, key |-> FALSE, fmt |-> t.f[i].fmt]) IN
                                         IF ~vr.ok THEN [acc EXCEPT !.ok = FALSE]
                                         ELSE [acc EXCEPT !.f[i] = vr.v, !.seen = @ \cup {i}],
-                       [ok |-> TRUE, f |-> old.f, seen |-> {}, unk |-> {}], j.m) IN
-              IF r.ok THEN OK([f |-> r.f]) ELSE FAIL
+                       [ok |-> TRUE, f |-> old.f, fb |-> old.fb, seen |-> {}, unk |-> {}], j.m) IN
+              IF r.ok THEN OK([f |-> r.f, fb |-> r.fb]) ELSE FAIL
     ELSE \* any: an empty interface gets the natural Go type of the JSON kind - also under
          \* StringifyNumbers, which is about numeric Go types; a held value is decoded into
          LET dt == IF ~old.nil THEN old.dt
@@ -451,6 +475,8 @@ Norm(t, v, o) ==
       [] t.k = "map" -> [nil |-> FALSE, m |-> [i \in 1..Len(v.m) |-> <<v.m[i][1], Norm(t.e, v.m[i][2], o)>>]]
       [] t.k = "ptr" -> IF Nullish(t, v, o) THEN [nil |-> TRUE] ELSE [nil |-> FALSE, e |-> Norm(t.e, v.e, o)]
       [] t.k = "any" -> IF Nullish(t, v, o) THEN [nil |-> TRUE] ELSE [nil |-> FALSE, dt |-> v.dt, e |-> Norm(v.dt, v.e, o)]
-      [] t.k = "struct" -> [f |-> [i \in 1..Len(t.f) |-> Norm(t.f[i].t, v.f[i], o)]]
+      [] t.k = "struct" -> [f |-> [i \in 1..Len(t.f) |-> Norm(t.f[i].t, v.f[i], o)],
+                           fb |-> IF t.fb = <<>> THEN v.fb
+                                  ELSE [nil |-> v.fb.m = <<>>, m |-> [i \in 1..Len(v.fb.m) |-> <<v.fb.m[i][1], Norm(t.fb[1], v.fb.m[i][2], o)>>]]]
       [] OTHER -> v
 =============================================================================
